@@ -34,6 +34,7 @@ func (h *History) CheckScan(sc *ScanCtx, r *Report) {
 		checkC19(h, sc, g, r)
 	}
 	checkC15Scan(h, sc, r)
+	checkC12Abort(h, sc, r)
 	checkC20(h, sc, r)
 	h.Prev = sc
 }
@@ -137,6 +138,15 @@ func checkC01(h *History, sc *ScanCtx, g *GroupCtx, r *Report) {
 		}
 		r.Covered(P, sig)
 		r.Sample(P, fmt.Sprintf("case %s scan %d: %s node=%s clause=%s taints=%s pods=%d", h.Case, sc.Rec.No, t.ev.API, t.node.Name, clause, sim.TaintsString(t.node.Spec.Taints), g.View.PodsOn[t.node.Name]))
+	}
+	if g.Reached && (g.Plan.Stage == oracle.StAboveMaxN || g.Plan.Stage == oracle.StBelowMinN) {
+		busyExpired := false
+		for _, n := range g.View.TaintedN {
+			if sec, ok, in := oracle.TaintTime(n); ok && in && oracle.ElapsedMoreThan(g.Now, sec, g.Cfg.Soft) && g.View.PodsOn[n.Name] > 0 {
+				busyExpired = true
+			}
+		}
+		r.Covered(P, fmt.Sprintf("out-of-bounds-scan:%s:busy-node-past-soft=%v", g.Plan.Stage, busyExpired))
 	}
 	// retained nodes sitting exactly on a boundary (the strict > must keep them)
 	if g.Reached && g.Plan.Stage == oracle.StDecide {
@@ -556,6 +566,10 @@ func checkC05C06C07(h *History, sc *ScanCtx, g *GroupCtx, r *Report) {
 			r.Violate("C07", key, "group %s: requested +%d on top of the real desired capacity (+%d relative to the cached one) after untainting %d: brings %d nodes, at most %d needed (%d instances were terminated earlier in this scan)",
 				g.Cfg.Name, reqReal, reqCache, untaints, broughtReal, need.hi, k)
 		}
+		if !clamped && broughtReal < need.lo && untaints+failedUntaints >= minI(need.lo, T) {
+			r.Violate("C07", "cloud-request-below-remainder", "group %s: %d nodes needed, %d really untainted, yet only +%d requested on top of the real desired capacity (head-room to the bound: %d)",
+				g.Cfg.Name, need.lo, untaints, reqReal, g.Bound()-cur)
+		}
 		if tried && untaints+failedUntaints < T {
 			r.Violate("C07", "cloud-before-pool-exhausted", "group %s: capacity requested with %d of %d tainted nodes still tainted", g.Cfg.Name, T-untaints, T)
 		}
@@ -563,6 +577,11 @@ func checkC05C06C07(h *History, sc *ScanCtx, g *GroupCtx, r *Report) {
 
 	// --- C06: direction and rate
 	if p.Stage != oracle.StDecide || !sc.Exact {
+		return
+	}
+	if _, notInGroup := sc.Rec.Err.(*cloudprovider.NodeNotInNodeGroup); notInGroup {
+		// the documented fatal condition ended this group's processing (possibly before it tainted anything)
+		r.DC("C06", "scan ended by the not-in-group condition")
 		return
 	}
 	const P = "C06"
@@ -1015,6 +1034,41 @@ func checkC12(h *History, sc *ScanCtx, g *GroupCtx, r *Report) {
 			}
 		}
 	}
+}
+
+// checkC12Abort: a failure while one group is processed must not end the scan for the groups after it.
+func checkC12Abort(h *History, sc *ScanCtx, r *Report) {
+	const P = "C12"
+	rec := sc.Rec
+	if len(sc.Groups) < 2 || rec.Crashed || rec.Panic == nil {
+		return
+	}
+	reached, last := 0, -1
+	for _, g := range sc.Groups {
+		if g.Reached {
+			reached++
+			last = g.GI
+		}
+	}
+	if reached == len(sc.Groups) && last == len(sc.Groups)-1 {
+		// the abort happened in the last group: nothing after it to be stopped
+		r.Covered(P, "abort-in-last-group")
+		return
+	}
+	key := "panic:" + panicClass(rec)
+	if rec.Fatal {
+		key = "fatal-exit:" + panicClass(rec)
+		if strings.Contains(key, "terminateOrphanedInstances") {
+			streak := 0
+			for _, g := range sc.Groups {
+				if len(g.Fleets) > 0 && g.FleetFailStreak > streak {
+					streak = g.FleetFailStreak
+				}
+			}
+			key += fmt.Sprintf(":consecutive-failures-of-the-group=%d", streak)
+		}
+	}
+	r.Violate(P, "scan-aborted:"+key, "scan %d ended while group %d of %d was processed (%v): the groups after it were not looked at", rec.No, last+1, len(sc.Groups), rec.Panic)
 }
 
 // ---- C13 (gauges) -------------------------------------------------------------------------------------
